@@ -116,3 +116,24 @@ func GoodNarrowLink(labels []byte, next []uint8) {
 		next[0] = uint8(j + 1)
 	}
 }
+
+// MASKWIDTH
+func BadBlankMask(pattern []byte, blank byte) uint64 {
+	var wild uint64
+	for i, b := range pattern {
+		if b == blank {
+			wild |= 1 << uint(i)
+		}
+	}
+	return wild
+}
+
+func GoodBlankMask(pattern []byte, blank byte) uint64 {
+	var wild uint64
+	for i := 0; i < len(pattern) && i < 64; i++ {
+		if pattern[i] == blank {
+			wild |= 1 << uint(i)
+		}
+	}
+	return wild
+}
